@@ -435,6 +435,14 @@ def check_property(prop, tier, only=None, jobs=None, seed=0):
                     log(f"KNOWN-FINDING: property={prop} {ent[0]['what']}")
                     continue
                 # a finding-witness that fails but is not listed is a new violation
+            if violations > 0 and os.environ.get("VERIF_REPLAY_ALL") != "1":
+                # one reproduced counterexample already decides the exit status; replaying every
+                # further failing harness only costs time (set VERIF_REPLAY_ALL=1 to do it anyway)
+                r["replay"] = None
+                r["reproduced"] = None
+                log(f"ALSO-FAILED {h.name} (not replayed: a violation is already confirmed); "
+                    f"failed checks: {r['failed_checks'][:4]}")
+                continue
             path, rep = make_replay(h, prop, tier, logdir)
             r["replay"] = path
             r["reproduced"] = rep
